@@ -94,6 +94,11 @@ func Sets() [][]Def {
 		{I("`"), I("a`b"), I("if"), I("'"), I(`\"`), I(`\\`), I("%d"), I("{{"), P("ID", "[a-z]+")},
 		{I("+"), I("-"), I("*"), I("/"), I("("), I(")"), I("<="), I("!="), I("$"), I("#"), I("?"), D("NUMBER", "$NUMBER"), D("WS", "$WS")},
 		{L("KIF", "if"), L("KIN", "in"), P("ID", "[a-z]+"), P("NUM", "[0-9]+"), D("WS", "$WS")},
+		// tokens and skipped tokens that span several lines: a skipped WS of blanks and newlines, a bracketed block that
+		// may hold newlines, a statement end swallowing the newlines behind it
+		{P("WS", `[\x20\x0A]+`), P("BLK", `<[a\x0A]*>`), P("ID", "[a-z]+"), P("EOL", `;\x0A*`)},
+		// literals that close or open a comment, for the emitted files that quote the grammar
+		{I("*/"), I("/*"), I("//"), I("*/x/*"), L("OPEN", "/**"), P("ID", "[a-z]+")},
 		{L("EQ", "="), L("EQEQ", "=="), P("EQS", "=+x"), P("INT", "[0-9]+"), P("FLT", `[0-9]+\.[0-9]+`)},
 		{L("SQ", "'"), L("BS", `\\`), L("DQ", `\"`), P("ANYQ", `['"]x`)},
 		{P("TAB", `\x09+`), P("EAC", `\x00E9+`), P("PRN", `[\x21-\x2F]+y`), P("EMO", `\x01F600`), L("LET", "let")},
@@ -110,7 +115,7 @@ func Sets() [][]Def {
 		{L("SEMI", ";"), L("LB", "{"), L("RB", "}"), L("LLB", "{{"), P("WORD", `\w+`), P("SP", `[ \x09]+`)},
 		{D("ID", "$ID"), D("NUMBER", "$NUMBER"), L("PLUS", "+"), L("STAR", "*"), L("LP", "("), L("RP", ")"), D("WS", "$WS")},
 		{P("UP", "[A-Z][a-z]*"), P("DIGITS", `\d{2,3}`), L("AT", "@"), L("HASH", "#")},
-		{P("HEX", "[0-9a-f]+"), P("B32", "[A-Z2-7]+x"), P("S64", `[0-9A-Za-z_$]y`), P("S8", "[a-h]z"), P("S15", "[a-o]!"), P("S17", "[a-q]#"), P("S31", `[A-Z1-5]%`), P("S33", `[A-Z1-7]&`), P("S48", `[0-9A-Za-l]~`)},
+		{P("HEX", "[0-9a-f]+"), P("B32", "[A-Z2-7]+x"), P("S64", `[0-9A-Za-z_#]y`), P("S8", "[a-h]z"), P("S15", "[a-o]!"), P("S17", "[a-q]#"), P("S31", `[A-Z1-5]%`), P("S33", `[A-Z1-7]&`), P("S48", `[0-9A-Za-l]~`)},
 		{L("BQ", "`"), L("ABQ", "a`b"), L("TRI", "```"), L("DOLLAR", "$"), L("PCT", "%d"), L("NL", `\n`), L("BRACES", "{{}}")},
 		{L("P1", "!"), L("P2", "#"), L("P3", "&"), L("P4", "'"), L("P5", "*"), L("P6", ","), L("P7", "."), L("P8", "/"), L("P9", ":"), L("PA", "<"), L("PB", ">"), L("PC", "?"), L("PD", "["), L("PE", "]"), L("PF", "^"), L("PG", "_"), L("PH", "|"), L("PI", "~"), L("PJ", `\\n`), L("PK", `\"\"`)},
 	}
